@@ -3,9 +3,9 @@
    float operations.  C16State: the state model of QpMcBoxDecomp / QpMcSimplexDecomp (gradient, variable and
    example tables, shrinking).  C16Linear: one coordinate step of the linear solvers QpMcLinear* / one epoch of QpBoxLinear. *)
 Require Import ExtrOcamlBasic.
-From SharkV Require Import C08Model C16Model C16State C16Linear C16Select.
+From SharkV Require Import C08Model C16Model C16State C16Linear C16Select C16Bias.
 Extraction "c16_model.ml" solve_edge solve_2d solve_tri max_gain_2d max_gain_line sa_lookup sa_scan
   simplex_step box_step
   box_smo simplex_smo unshrink box_shrink simplex_shrink add_delta_linear init_state deact_var deact_ex sdeact_var mstep
   lin_step boxlin_epoch
-  box_select simplex_select old_simplex_select kkt mc_solve_steps.
+  box_select simplex_select old_simplex_select kkt mc_solve_steps bias_update.
